@@ -3,6 +3,7 @@ pub mod c05;
 pub mod c06;
 pub mod c07;
 pub mod c08;
+pub mod c09;
 pub mod c11;
 pub mod c12;
 pub mod c14;
@@ -12,5 +13,5 @@ pub mod c19;
 use crate::framework::PropertyCheck;
 
 pub fn all_checks() -> Vec<PropertyCheck> {
-  vec![c04::check_def(), c05::check_def(), c06::check_def(), c07::check_def(), c08::check_def(), c11::check_def(), c12::check_def(), c14::check_def(), c15::check_def(), c19::check_def()]
+  vec![c04::check_def(), c05::check_def(), c06::check_def(), c07::check_def(), c08::check_def(), c09::check_def(), c11::check_def(), c12::check_def(), c14::check_def(), c15::check_def(), c19::check_def()]
 }
